@@ -26,7 +26,10 @@ def parseKT (s : String) : Option KT :=
   | 'a' :: r => (String.ofList r).toNat?.map (⟨.a, ·⟩)
   | _ => none
 
-/-- all keys of one dictionary have the width of the key type, where the fast forms equal ltSigned / ltUnsigned -/
+/-- The dictionary state of the driver holds TYPED keys, as Go does: an integer key is kept as the 64-bit image of the Go
+value (so that values outside the declared width — `Uint7(200)` — are distinct from their truncations), byte-string
+and address keys as their encoding. `Compare` on the typed keys: all of one width, where the fast forms equal
+ltSigned / ltUnsigned. -/
 def KT.lt (kt : KT) : Key → Key → Bool := if kt.fam = .i then ltSignedFast else ltUnsignedFast
 
 def parseInt? (s : String) : Option Int :=
@@ -36,8 +39,8 @@ def parseInt? (s : String) : Option Int :=
 
 def parseKey (kt : KT) (s : String) : Option Key :=
   match kt.fam with
-  | .u => s.toNat?.map (Bits.natToBits kt.n)
-  | .i => (parseInt? s).map (Bits.intToBits kt.n)
+  | .u => s.toNat?.map (Bits.natToBits 64)
+  | .i => (parseInt? s).map (Bits.intToBits 64)
   | _ => (hexArg s).bind fun bs => if bs.length * 8 = kt.n then some (Bits.bytesToBits bs) else none
 
 /-- Go decodes the key into its typed form and the harness prints that: AddressWithWorkchain keeps only an int8 of
@@ -49,6 +52,30 @@ def normKey (kt : KT) (k : Key) : Key :=
     let wc8 := (wc + 128) % 256 - 128
     Bits.intToBits 32 wc8 ++ k.drop 32
   | _ => k
+
+/-- Marshal(cell, key): typed key → encoded bits (model `encUintKey` / `encIntKey`) -/
+def encKey (kt : KT) (t : Key) : Outcome Key :=
+  match kt.fam with
+  | .u => encUintKey kt.n (Bits.bitsToNat t)
+  | .i => encIntKey kt.n (Bits.bitsToInt t)
+  | _ => .ok t
+
+/-- Unmarshal of a key: encoded bits → typed key -/
+def decKey (kt : KT) (k : Key) : Key :=
+  match kt.fam with
+  | .u => Bits.natToBits 64 (Bits.bitsToNat k)
+  | .i => Bits.intToBits 64 (Bits.bitsToInt k)
+  | _ => normKey kt k
+
+def encAll (kt : KT) {α : Type} : List (Key × α) → Outcome (List (Key × α))
+  | [] => .ok []
+  | (t, v) :: rest =>
+    match encKey kt t with
+    | .ok k => match encAll kt rest with
+      | .ok r => .ok ((k, v) :: r)
+      | e => e
+    | .err e => .err e
+    | .panic p => .panic p
 
 def showKey (kt : KT) (k : Key) : String :=
   match kt.fam with
@@ -146,13 +173,102 @@ def withTypes (a : List String) (f : KT → VT → List String → Option String
 
 /-- HashmapE.UnmarshalTLB followed by the key type's own decoding (lossy only for AddressWithWorkchain, see normKey) -/
 def decodeE (kt : KT) (vt : VT) (c : Cell) : Outcome (List (Key × Val)) :=
-  omap (unmarshalE (codecOf vt) kt.n c) fun d => d.map fun kv => (normKey kt kv.1, kv.2)
+  omap (unmarshalE (codecOf vt) kt.n c) fun d => d.map fun kv => (decKey kt kv.1, kv.2)
+
+/-- HashmapE.MarshalTLB of the typed dictionary: every key is marshalled first (an error there fails the whole call) -/
+def marshalT (kt : KT) (vt : VT) (d : List (Key × Val)) : Outcome Cell :=
+  match encAll kt d with
+  | .ok w => marshalE (codecOf vt) kt.n w
+  | .err e => .err e
+  | .panic p => .panic p
+
+def marshalBareT (kt : KT) (vt : VT) (d : List (Key × Val)) : Outcome Cell :=
+  if d.isEmpty then marshal (codecOf vt) kt.n []
+  else match encAll kt d with
+  | .ok w => marshal (codecOf vt) kt.n w
+  | .err e => .err e
+  | .panic p => .panic p
 
 def applyPuts (kt : KT) (d : List (Key × Val)) (ops : List (Key × Val)) : List (Key × Val) :=
   ops.foldl (fun d kv => put kt.lt d kv.1 kv.2) d
 
-def skipFixed (w : Nat) (bits : List Bool) (refs : List Cell) : Outcome (List Bool × List Cell) :=
-  if bits.length < w then .err "not enough bits" else .ok (bits.drop w, refs)
+/-! extras of HashmapAug: the decoded extra is kept as the text the harness prints for it -/
+
+inductive XT | u32 | cc | dbi | imf deriving DecidableEq
+
+def parseXT : String → Option XT
+  | "U32" => some .u32 | "CC" => some .cc | "DBI" => some .dbi | "IF" => some .imf | _ => none
+
+abbrev XRes := Outcome (String × List Bool × List Cell)
+
+def xU32 : XDec String := fun bits refs =>
+  if bits.length < 32 then .err "not enough bits" else .ok (toString (Bits.bitsToNat (bits.take 32)), bits.drop 32, refs)
+
+/-- tlb.Grams.UnmarshalTLB: 4-bit byte count (more than 8 is an error), then the bytes -/
+def xGrams : XDec String := fun bits refs =>
+  match readUint 4 bits with
+  | none => .err "not enough bits"
+  | some (ln, r) =>
+    if ln > 8 then .err "grams overflow"
+    else match readUint (8 * ln) r with
+      | none => .err "not enough bits"
+      | some (v, r') => .ok (toString v, r', refs)
+
+/-- tlb.VarUInteger32 as a dictionary value: 5-bit byte count, then the bytes -/
+def varUInt32Codec : Codec Nat where
+  enc _ := .err "unused"
+  dec bits _ := match readUint 5 bits with
+    | none => .err "not enough bits"
+    | some (ln, r) => match readUint (8 * ln) r with
+      | none => .err "not enough bits"
+      | some (v, _) => .ok v
+
+/-- tlb.CurrencyCollection: Grams, then ExtraCurrencyCollection = HashmapE[Uint32, VarUInteger32] -/
+def xCC : XDec String := fun bits refs =>
+  match xGrams bits refs with
+  | .ok (g, r, _) =>
+    match r with
+    | [] => .err "not enough bits"
+    | b :: r' =>
+      match unmarshalE varUInt32Codec 32 (Cell.ordinary r refs) with
+      | .ok d =>
+        let items := ",".intercalate (d.map fun kv => toString (Bits.bitsToNat kv.1) ++ ":" ++ toString kv.2)
+        .ok (g ++ "/{" ++ items ++ "}", r', if b then refs.drop 1 else refs)
+      | .err e => .err e
+      | .panic p => .panic p
+  | .err e => .err e
+  | .panic p => .panic p
+
+/-- tlb.DepthBalanceInfo: split_depth as Uint5, then CurrencyCollection -/
+def xDBI : XDec String := fun bits refs =>
+  match readUint 5 bits with
+  | none => .err "not enough bits"
+  | some (d, r) => match xCC r refs with
+    | .ok (c, r', refs') => .ok (toString d ++ "|" ++ c, r', refs')
+    | .err e => .err e
+    | .panic p => .panic p
+
+/-- tlb.ImportFees: Grams, then CurrencyCollection -/
+def xIF : XDec String := fun bits refs =>
+  match xGrams bits refs with
+  | .ok (g, r, refs') => match xCC r refs' with
+    | .ok (c, r', refs'') => .ok (g ++ "+" ++ c, r', refs'')
+    | .err e => .err e
+    | .panic p => .panic p
+  | .err e => .err e
+  | .panic p => .panic p
+
+def xdecOf : XT → XDec String
+  | .u32 => xU32 | .cc => xCC | .dbi => xDBI | .imf => xIF
+
+def xzero : XT → String
+  | .u32 => "0" | .cc => "0/{}" | .dbi => "0|0/{}" | .imf => "0+0/{}"
+
+def showExtras : AugExtras String → String
+  | .leaf y => "L(" ++ y ++ ")"
+  | .fork y l r => "F(" ++ y ++ "," ++ showExtras l ++ "," ++ showExtras r ++ ")"
+
+def codecOfAug (vt : VT) : Codec Val := codecOf vt
 
 end Driver.C05
 
@@ -172,7 +288,7 @@ def opsC05 : List (String × Handler) := [
   -- Put in the given order, Marshal the HashmapE, dump the cell tree
   ("hm.build", fun a => withTypes a fun kt vt rest => do
     let ops ← rest.mapM (parseEntry kt vt)
-    pure (outStr (omap (marshalE (codecOf vt) kt.n (applyPuts kt [] ops)) cellText))),
+    pure (outStr (omap (marshalT kt vt (applyPuts kt [] ops)) cellText))),
   -- Unmarshal a HashmapE from a cell table, Items()
   ("hm.decode", fun a => withTypes a fun kt vt rest =>
     match rest with
@@ -183,12 +299,12 @@ def opsC05 : List (String × Handler) := [
   -- bare tlb.Hashmap: Put, Marshal into a fresh cell / Unmarshal from the root cell
   ("hmb.build", fun a => withTypes a fun kt vt rest => do
     let ops ← rest.mapM (parseEntry kt vt)
-    pure (outStr (omap (marshal (codecOf vt) kt.n (applyPuts kt [] ops)) cellText))),
+    pure (outStr (omap (marshalBareT kt vt (applyPuts kt [] ops)) cellText))),
   ("hmb.decode", fun a => withTypes a fun kt vt rest =>
     match rest with
     | [t] => do
       let c ← parseCell t
-      pure (outStr (omap (omap (unmarshal (codecOf vt) kt.n c) fun d => d.map fun kv => (normKey kt kv.1, kv.2))
+      pure (outStr (omap (omap (unmarshal (codecOf vt) kt.n c) fun d => d.map fun kv => (decKey kt kv.1, kv.2))
         (showEntries kt vt)))
     | _ => none),
   -- Unmarshal, then Get for each listed key
@@ -211,15 +327,40 @@ def opsC05 : List (String × Handler) := [
       pure (outStr (do
         let d ← decodeE kt vt c
         let d' := applyPuts kt d ops
-        let c' ← marshalE (codecOf vt) kt.n d'
+        let c' ← marshalT kt vt d'
         pure (showEntries kt vt d' ++ " | " ++ cellText c')))
     | _ => none),
-  -- HashmapAugE[K, Uint32, Uint32]: Unmarshal, Keys()/Values()
+  -- NewHashmapE(keys, values) with slices of any two lengths: Marshal, Items()
+  ("hm.new", fun a => withTypes a fun kt vt rest =>
+    match rest with
+    | nk :: more => do
+      let nk ← nk.toNat?
+      let keys ← (more.take nk).mapM (parseKey kt)
+      let vals ← (more.drop nk).mapM (parseVal vt)
+      let wire : Outcome (List Key) := omap (encAll kt (keys.map fun k => (k, ()))) fun l => l.map (·.1)
+      let m : Outcome Cell := match wire with
+        | .ok w => marshalSlicesE (codecOf vt) kt.n w vals
+        | .err e => .err e
+        | .panic p => .panic p
+      let items : Outcome (List (Key × Val)) := itemsSlices keys vals
+      pure ("ok M=" ++ (outStr (omap m cellText)).replace " " ":" ++ " I=" ++
+        (outStr (omap items (showEntries kt vt))).replace " " ":")
+    | _ => none),
+  -- HashmapAugE[K, V, X]: Unmarshal; Keys()/Values(), root extra, tree of extras
   ("hma.decode", fun
-    | [kt, t] => match parseKT kt, parseCell t with
-      | some kt, some c =>
-        outStr (omap (unmarshalAugE (skipFixed 32) (fixedCodec 32) kt.n c) (showEntries kt .u32))
-      | _, _ => "bad-op"
+    | [kt, vt, xt, t] => match parseKT kt, parseVT vt, parseXT xt, parseCell t with
+      | some kt, some vt, some xt, some c =>
+        outStr (omap (unmarshalAugE (xdecOf xt) (xzero xt) (codecOfAug vt) kt.n c) fun r =>
+          showEntries kt vt (r.1.map fun kv => (decKey kt kv.1, kv.2)) ++ " | X=" ++ r.2.2 ++ " T=" ++ showExtras r.2.1)
+      | _, _, _, _ => "bad-op"
+    | _ => "bad-op"),
+  -- HashmapAug[K, V, X] stored inline: Unmarshal from the given cell
+  ("hmai.decode", fun
+    | [kt, vt, xt, t] => match parseKT kt, parseVT vt, parseXT xt, parseCell t with
+      | some kt, some vt, some xt, some c =>
+        outStr (omap (unmarshalAug (xdecOf xt) (xzero xt) (codecOfAug vt) kt.n c) fun r =>
+          showEntries kt vt (r.1.map fun kv => (decKey kt kv.1, kv.2)) ++ " | T=" ++ showExtras r.2)
+      | _, _, _, _ => "bad-op"
     | _ => "bad-op")
 ]
 
